@@ -165,26 +165,53 @@ PoolChecks(e, st, P, u, tiph) ==
        \cup {Bad(e, "C14", "pooled-transaction-invalid-against-ledger:" \o id) : id \in stale}
        \cup {Bad(e, "C14", "unspent-output-locked-by-no-pooled-transaction:" \o n) : n \in locked}
 
-WalletChecks(e, st, u, tiph) ==
+WalletChecks(e, st, u, tiph, wc) ==
     LET G == env.g
         w == st.wallet
         listed == {x \in Rng(w.slips) : x.o \in Rng(w.unspent)}
         sum == SumSet({[o |-> x.o, amt |-> T3(x.amt)] : x \in listed})
         mine == {x.o : x \in {y \in u : y.owner = env.nodekey /\ y.kind # KBound /\ y.bh + G >= tiph}}
     IN (IF ~LimbEq(sum, T3(w.balance)) THEN {Bad(e, "C19", "balance-differs-from-unspent-sum")} ELSE {})
-       \cup (IF env.reorgs = 0 /\ w.pending = 0 /\ Rng(w.unspent) # mine
-             THEN {Bad(e, "C19", "wallet-unspent-differs-from-ledger")} ELSE {})
+       \* wc: outputs the wallet has committed to transactions it built since it was started (a transaction that left
+       \* the node's pool may still confirm elsewhere: the wallet keeps its inputs committed)
+       \cup (IF env.reorgs = 0 /\ w.pending = 0 /\ Rng(w.unspent) # mine \ wc
+             THEN {Bad(e, "C19", IF wc = {} THEN "wallet-unspent-differs-from-ledger" ELSE "wallet-unspent-differs-from-ledger-minus-committed")}
+             ELSE {})
+
+(* a payment built by the node's own wallet: distinct existing inputs of its own key, outputs not exceeding *)
+(* inputs, valid against the ledger it was built on - and therefore accepted by the node's own pool        *)
+OnWalletTx(e) ==
+    IF ~e.built
+    THEN /\ bad' = bad \cup (IF IsPanic(e.res) THEN {Bad(e, "C19", "wallet-panicked")} ELSE {})
+                       \cup (IF IsPanic(e.res) THEN {} ELSE WalletChecks(e, e.st, obs.utxo, obs.tiph, env.wc))
+         /\ UNCHANGED <<B, U, obs, pool, env>>
+    ELSE LET t == Tx(e.tx)
+             v == TxViolations(obs.utxo, t, obs.tiph + 1, env.g)
+             inputs(x) == {x.ins[i].o : i \in {j \in DOMAIN x.ins : ~IsZero(x.ins[j].amt)}}
+             conflict == \E id \in DOMAIN pool : inputs(pool[id]) \cap inputs(t) # {}
+             pooled == e.res = "Pooled"
+             P2 == IF pooled THEN (t.id :> t) @@ pool ELSE pool
+             wc2 == env.wc \cup {t.ins[i].o : i \in DOMAIN t.ins}
+         IN /\ pool' = P2
+            /\ env' = [env EXCEPT !.wc = wc2]
+            /\ bad' = bad
+                 \cup {Bad(e, "C19", "wallet-built-invalid-transaction:" \o x) : x \in v}
+                 \cup (IF conflict THEN {Bad(e, "C19", "wallet-spent-an-output-committed-to-a-pooled-transaction")} ELSE {})
+                 \cup (IF ~pooled /\ ~IsPanic(e.res) /\ v = {} /\ ~conflict
+                       THEN {Bad(e, "C19", "own-valid-transaction-refused-by-pool")} ELSE {})
+                 \cup (IF IsPanic(e.res) THEN {Bad(e, "C11", "panic")} ELSE WalletChecks(e, e.st, obs.utxo, obs.tiph, wc2))
+            /\ UNCHANGED <<B, U, obs>>
 
 (* ---- the monitor ------------------------------------------------------------------ *)
 TraceInit ==
     /\ l = 1 /\ bad = {} /\ B = <<>> /\ U = <<>> /\ pool = <<>>
     /\ obs = [tip |-> "", tiph |-> 0, utxo |-> {}]
-    /\ env = [g |-> 100, issued |-> LimbZero, nodekey |-> "", reorgs |-> 0, detached |-> FALSE, nd |-> NoSample]
+    /\ env = [g |-> 100, issued |-> LimbZero, nodekey |-> "", reorgs |-> 0, detached |-> FALSE, nd |-> NoSample, wc |-> {}]
 
 OnReset(e) ==
     /\ B' = <<>> /\ U' = <<>> /\ pool' = <<>>
     /\ obs' = [tip |-> "", tiph |-> 0, utxo |-> {}]
-    /\ env' = [g |-> e.g, issued |-> T3(e.issued), nodekey |-> e.node_key, reorgs |-> 0, detached |-> FALSE, nd |-> NoSample]
+    /\ env' = [g |-> e.g, issued |-> T3(e.issued), nodekey |-> e.node_key, reorgs |-> 0, detached |-> FALSE, nd |-> NoSample, wc |-> {}]
     /\ bad' = bad
 
 OnBlock(e) ==
@@ -206,7 +233,7 @@ OnBlock(e) ==
                               !.detached = @ \/ (T.tip \in DOMAIN BB /\ ~LcMatches(e.st.lc, PathTo(BB, T.tip), T.tiph, env.g))]
        /\ bad' = bad \cup BlockChecks(e, BB, UU)
                      \cup (IF IsPanic(e.res) THEN {} ELSE PoolChecks(e, e.st, P2, T.utxo, T.tiph))
-                     \cup (IF IsPanic(e.res) THEN {} ELSE WalletChecks(e, e.st, T.utxo, T.tiph))
+                     \cup (IF IsPanic(e.res) THEN {} ELSE WalletChecks(e, e.st, T.utxo, T.tiph, env.wc))
 
 OnSubmit(e) ==
     LET t == Tx(e.tx)
@@ -225,7 +252,7 @@ OnSubmit(e) ==
                   THEN {Bad(e, "C14", "valid-unconflicted-transaction-refused")} ELSE {})
             \cup (IF IsPanic(e.res) THEN {Bad(e, "C11", "panic")} ELSE {})
             \cup (IF IsPanic(e.res) THEN {} ELSE PoolChecks(e, e.st, P2, obs.utxo, obs.tiph))
-            \cup (IF IsPanic(e.res) THEN {} ELSE WalletChecks(e, e.st, obs.utxo, obs.tiph))
+            \cup (IF IsPanic(e.res) THEN {} ELSE WalletChecks(e, e.st, obs.utxo, obs.tiph, env.wc))
        /\ UNCHANGED <<B, U, obs, env>>
 
 (* ---- restart from the block files (C12) ------------------------------------------- *)
@@ -248,7 +275,9 @@ OnRestart(e) ==
                      THEN {Bad(e, "C12", "restart-changed-spendable-outputs")} ELSE {})
                \cup (IF ~env.detached /\ ~SupplyOk(e, e.st) THEN {Bad(e, "C12", "restart-changed-supply")} ELSE {}))
     /\ obs' = IF IsPanic(e.res) THEN obs ELSE b
-    /\ UNCHANGED <<B, U, pool, env>>
+    /\ pool' = [id \in (DOMAIN pool \cap Rng(e.st.pool)) |-> pool[id]]     \* the pool is not persisted
+    /\ env' = [env EXCEPT !.wc = {}]                                      \* nor are the wallet's commitments
+    /\ UNCHANGED <<B, U>>
 
 (* a crash after any prefix of the storage operations, last write complete / absent / torn: the node comes up, on a *)
 (* block it knew before (the old tip, an ancestor, a block of a known branch), with the supply intact, and goes on  *)
@@ -302,6 +331,7 @@ TraceNext ==
          [] e.ev = "Submit" -> OnSubmit(e)
          [] e.ev = "Bundle" -> OnBundle(e)
          [] e.ev = "Needed" -> OnNeeded(e)
+         [] e.ev = "WalletTx" -> OnWalletTx(e)
          [] e.ev = "Restart" -> OnRestart(e)
          [] e.ev = "Crash" -> OnCrash(e)
          [] OTHER -> UNCHANGED <<bad, B, U, obs, pool, env>>
